@@ -173,6 +173,9 @@ theorem step_ids (P : Params) (E : Env) (s : State) (a : Action) :
   | apiWrite p v k => exact modPort_ids p (enqApi v k) (fun _ => rfl) _
   | eval p => exact modPort_ids p _ (evalPort_id E) _
   | write p => exact modPort_ids p _ (writePort_id E) _
+  | create p => exact modPort_ids p (setEnabled true) (fun _ => rfl) _
+  | remove p => exact modPort_ids p (setEnabled false) (fun _ => rfl) _
+  | forceEval => rfl
 
 theorem step_congr (H : PortId → Bool) (P : Params) (E1 E2 : Env) (h : AgreeOn H E1 E2) (s : State)
     (hall : AllIn H s.ports) (a : Action) : step P E1 s a = step P E2 s a := by
@@ -180,6 +183,9 @@ theorem step_congr (H : PortId → Bool) (P : Params) (E1 E2 : Env) (h : AgreeOn
   | pass k now => exact pass_congr H P E1 E2 h k now s hall
   | setSrc p v => rfl
   | apiWrite p v k => rfl
+  | create p => rfl
+  | remove p => rfl
+  | forceEval => rfl
   | eval p =>
     simp only [step]
     congr 1
